@@ -42,6 +42,8 @@ func checkC13(c *Ctx) {
 	c.checkReplyGoesToItsRequest()
 	c.checkReportedErrorNotOverwritten()
 	c.checkDraftySpanBounds()
+	c.checkFailureReplyCarriesTheFailure()
+	c.checkClientMapValuesAssertedSafely()
 	// a request whose in-flight slot is never released blocks every later request of the session
 	c.checkInflightPairing()
 	// a call party that is not a subscriber of the p2p topic makes Topic.original panic (D16) on the next event
